@@ -258,6 +258,10 @@ func (e *Enc) mapUpdate(fr *Frame, st *State, x *ssa.MapUpdate) {
 
 // ---------- range over maps ----------
 
+func itComp(mc *mapComps, rng ssa.Value) (string, string) {
+	return "IT:" + mc.mk + "#" + rng.Parent().Name() + "." + rng.Name(), nestArr(mc.ks, "Bool")
+}
+
 func (e *Enc) rangeInstr(fr *Frame, st *State, x *ssa.Range) {
 	mt, isMap := x.X.Type().Underlying().(*types.Map)
 	if !isMap {
@@ -265,14 +269,13 @@ func (e *Enc) rangeInstr(fr *Frame, st *State, x *ssa.Range) {
 	}
 	mc := e.mapInfo(mt)
 	id := e.allocObj(st, 1, "iter")
-	cn := "IT:" + mc.mk
-	cs := "(Array Int " + nestArr(mc.ks, "Bool") + ")"
-	a := e.comp(st, cn, cs)
-	e.setComp(st, cn, cs, sto(a, id, constArr(mc.ks, "Bool", "false")))
+	cn, cs := itComp(mc, x)
+	e.setComp(st, cn, cs, constArr(mc.ks, "Bool", "false"))
+	e.setComp(st, cn+"#steps", "Int", "0")
 	if fr.iters == nil {
 		fr.iters = map[ssa.Value]*iterInfo{}
 	}
-	fr.iters[x] = &iterInfo{mapVal: e.val(fr, st, x.X), mapType: mt, id: id}
+	fr.iters[x] = &iterInfo{mapVal: e.val(fr, st, x.X), mapType: mt, id: id, comp: cn, compSort: cs}
 	fr.vals[x] = intVal(x.Type(), id)
 }
 
@@ -287,9 +290,7 @@ func (e *Enc) nextInstr(fr *Frame, st *State, x *ssa.Next) {
 	mt := it.mapType
 	mc := e.mapInfo(mt)
 	ref := it.mapVal.term()
-	cn := "IT:" + mc.mk
-	cs := "(Array Int " + nestArr(mc.ks, "Bool") + ")"
-	vis := e.comp(st, cn, cs)
+	vis := e.comp(st, it.comp, it.compSort)
 	ok := e.s.Fresh("next.ok", "Bool")
 	key := e.fresh(mt.Key(), "next.k")
 	var ks []string
@@ -297,7 +298,7 @@ func (e *Enc) nextInstr(fr *Frame, st *State, x *ssa.Next) {
 	present, v := e.mapGet(st, mt, ref, key)
 	v = e.nameVal(v, "next.v")
 	d := e.comp(st, mc.dom, mc.domS)
-	e.assume(st, implies(ok, and(present, not(mapSel(sel(vis, it.id), ks)), e.wf(key, st.alloc), e.wf(v, st.alloc), not(eq(ref, "0")))))
+	e.assume(st, implies(ok, and(present, not(mapSel(vis, ks)), e.wf(key, st.alloc), e.wf(v, st.alloc), not(eq(ref, "0")))))
 	// exhausted: every key in the domain has been visited
 	var bvs, bks []string
 	for i, s := range mc.ks {
@@ -306,9 +307,13 @@ func (e *Enc) nextInstr(fr *Frame, st *State, x *ssa.Next) {
 		bks = append(bks, n)
 	}
 	e.assume(st, implies(not(ok), fmt.Sprintf("(forall (%s) (=> %s %s))", strings.Join(bvs, " "),
-		mapSel(sel(d, ref), bks), mapSel(sel(vis, it.id), bks))))
-	e.assume(st, implies(and(not(ok), eq(e.mapLen(st, mt, ref), "0")), "true"))
+		mapSel(sel(d, ref), bks), mapSel(vis, bks))))
 	e.mapFacts(st, mt, ref, ok)
-	e.setComp(st, cn, cs, ite(ok, sto(vis, it.id, mapSto(sel(vis, it.id), ks, "true")), vis))
+	// number of keys produced so far: each key is produced at most once
+	steps := e.comp(st, it.comp+"#steps", "Int")
+	e.assume(st, fmt.Sprintf("(and (<= 0 %s) (=> %s (< %s %s)))", steps, ok, steps, e.mapLen(st, mt, ref)))
+	e.setComp(st, it.comp+"#steps", "Int", fmt.Sprintf("(+ %s 1)", steps))
+	// the visited set after this step (only meaningful when ok)
+	e.setComp(st, it.comp, it.compSort, mapSto(vis, ks, "true"))
 	e.setVal(fr, x, &Val{T: x.Type(), K: KTuple, F: []*Val{boolVal(ok), key, v}})
 }
